@@ -171,6 +171,10 @@ class SymE:
     def opaque(self, what, **info):
         return Opaque(what, **info)
 
+    def as_bytes(self, seq):
+        """a sequence of byte values as a bytes object of the program"""
+        return to_seq(seq).as_kind('bytes')
+
     def clone(self, v, memo=None):
         """deep copy of a symbolic value / object graph (for running spec and body on equal states)"""
         if memo is None:
@@ -266,12 +270,11 @@ class SymE:
             if len(a) != len(b):
                 return False
             return L.And(*[self.same_state(x, y, path, skip) for x, y in zip(a, b)]) if a else True
+        if isinstance(a, list) and isinstance(b, list) and any(not V._isnum(x) for x in a + b):
+            if len(a) != len(b):
+                return False
+            return L.And(*[self.same_state(x, y, path, skip) for x, y in zip(a, b)]) if a else True
         if isinstance(a, (Seq, list, bytes)) and isinstance(b, (Seq, list, bytes)):
-            la = a if not isinstance(a, list) else None
-            if isinstance(a, list) and isinstance(b, list) and any(isinstance(x, (Obj, dict, list, tuple)) for x in a + b):
-                if len(a) != len(b):
-                    return False
-                return L.And(*[self.same_state(x, y, path, skip) for x, y in zip(a, b)]) if a else True
             return L.eq(a, b)
         if isinstance(a, Opaque) or isinstance(b, Opaque):
             return a is b
